@@ -662,6 +662,15 @@ fn string_from_utf8''')]},
      'edits': [('yarel/src/error.rs', "        self.messages.push(String::from(message));", "        if message.is_empty() {\n            return;\n        }\n        self.messages.push(String::from(message));")]},
     {'name': 'L14 the command line trims the script before interpreting it', 'prop': 'C17', 'expect': 'L14 / yarel_cli::run_file',
      'edits': [('yarel-cli/src/main.rs', "        Ok(contents) => vm::interpret(vm, contents, None),", "        Ok(contents) => vm::interpret(vm, contents.trim_start().to_string(), None),")]},
+    # ---- round 11 ---------------------------------------------------------------------------------------
+    {'name': 'R1k collector skips a cell that is mutably borrowed (try_borrow)', 'prop': 'C01',
+     'expect': 'R1k / std::cell::RefCell<T>::mark reaches the payload on every path',
+     'edits': [(MEM, "        self.borrow().mark();\n", "        if let Ok(inner) = self.try_borrow() {\n            inner.mark();\n        }\n"),
+               (MEM, "        self.borrow().blacken();\n", "        if let Ok(inner) = self.try_borrow() {\n            inner.blacken();\n        }\n")]},
+    {'name': 'B2 emit_loop counts the opcode twice', 'prop': 'C04', 'expect': 'B2 / emit_loop',
+     'edits': [(COMP, "self.chunk().code.len() - loop_start + 2;", "self.chunk().code.len() - loop_start + 3;")]},
+    {'name': 'P12 number comparison helper unwraps partial_cmp', 'prop': 'C02', 'expect': 'P12 / utils::cmp_numbers',
+     'edits': [(UTILS, "pub(crate) fn hash_number(", "pub(crate) fn cmp_numbers(a: f64, b: f64) -> std::cmp::Ordering {\n    a.partial_cmp(&b).unwrap()\n}\n\n#[allow(dead_code)]\npub(crate) fn hash_number(")]},
 ]
 
 BENIGN = [
